@@ -236,6 +236,36 @@ CHECKS = {
 
 NOT_APPLICABLE = []
 
+# session 3: environment audits / strengthening (DESIGN.md 8.6 round 3, 8.7) and L2 lanes (DESIGN.md 9)
+EXTRA_NOTES = {
+    "C01": "session 3: eight back-end defects repaired in /repo (signed literals, signedness of comparisons / shifts / selects, Case "
+           "items of a signed test, whole slice of a signed value, initial value of register ports); the overflow classes no longer "
+           "absorb those causes; 25 listed classes remain (intermediate overflow as named by the property, simulator-side exact "
+           "integers, memory template modes, multi-driver lowerings)",
+    "C02": "session 3: port declarations with initial values understood",
+    "C07": "session 3 audit: bus lines carrying other slaves' requests while this slave is not addressed (cyc without stb, stb "
+           "without cyc), cache geometries that really miss (multi-word evict/refill), Remapper origin/region/byte-addressed "
+           "parameters with the clause SlaveAddressMapped, 16-bit byte-addressed Wishbone2CSR; every chain still ends in "
+           "wishbone.SRAM (slave latency 1 only); known finding: Wishbone2CSR partial-select write on a CSR bus wider than 8 bit",
+    "C09": "session 3 audit: Wishbone cyc/stb de-correlated, AXI-Lite partners accepting addresses or data ahead, sub-word faulting "
+           "regions, byte-addressed Wishbone sides, 64-bit AHB2Wishbone, HSEL low, add_adapter direction s2m; 3 further known "
+           "findings (AXI2AXILite r.last / early WRITE-RESP with partners that accept ahead)",
+    "C10": "session 3 audit: junk on request and payload lines while valid is low, capabilities {FIXED, INCR}, AXIConverter with "
+           "equal widths",
+    "C13": "session 3 audit: the decoders do_finalize really hands to the interconnect are evaluated (InterconnectDecoders), IO "
+           "regions of other alignment, reserved_regions / reserved_csrs",
+    "C14": "session 3 audit: ROM images from files inside real SoCs incl. big-endian (MemImageInRegion), CSR memories wider than the "
+           "bus / deeper than a page, SVD field ranges (SvdFieldsTrue), descending image regions",
+    "C16": "session 3 audit: split (_lsb/_msb) header fields, unaligned Packetizer under the complete environment, junk while idle in "
+           "G-mode for PacketFIFO / Arbiter / Dispatcher, layouts without params; ValidHold compares the held beat",
+    "C17": "session 3 audit: decoder sweep (every 10-bit word after representative predecessors, held through stalls), bursty stream "
+           "profiles with witnesses",
+    "C19": "session 3: redundant I2C START/STOP commands and status polling (ReadReturnsStatus), SPI MOSI rewritten mid-transfer, "
+           "MisoHeld / ResultHeld, SPI slave on a shared bus, RS232PHY wrapper incl. dynamic-baudrate reset value",
+    "C20": "session 3: band-edge request class enumerated exhaustively per device variant; two more GW1NPLL defects repaired, "
+           "GW1NPLL floor-only divisor refusal listed",
+}
+
 ORDER = ["C%02d" % i for i in range(1, 21)]
 
 
@@ -256,7 +286,7 @@ def main():
             "engine": c.get("engine", "tlc+fhdl_step"),
             "level_claimed": {"category": c.get("category", "model_checking"), "text": c["text"],
                               "design_ref": "DESIGN.md section " + c["ref"]},
-            "level_note": c["note"],
+            "level_note": c["note"] + ("; " + EXTRA_NOTES[pid] if pid in EXTRA_NOTES else ""),
             "technique": c["technique"],
         })
     na = list(NOT_APPLICABLE)
